@@ -9,7 +9,10 @@ M  TLC: MC_Ingest (parse_dump_xml's filter + add_page + add_default_templates as
         main-namespace pages "Zed" and "Main:Zed".
 G  TLC Gen_Ingest: every dump of the bound with the demanded store and the as-is store;
         each is written as a real .xml.bz2 (MediaWiki export layout, proper escaping,
-        concrete nasty texts per body identifier), ingested by the real parse_dump_xml +
+        concrete nasty texts per body identifier; a second family: redirect pages of five
+        namespaces x target shapes [main namespace / own / other namespace, canonical /
+        alias / lower-case prefix, leading colon, fragment, underscore, itself, chains]
+        with and without the pages they point to), ingested by the real parse_dump_xml +
         add_default_templates (every 4th through process_dump with the interwiki fetch
         stubbed), and get_all_pages() is compared row by row, byte by byte.
 V  seeded random dumps (longer, titles/bodies from a wider universe, every namespace of
@@ -24,6 +27,7 @@ import hashlib
 import json
 import os
 import random
+import re
 import shutil
 import tempfile
 import threading
@@ -247,7 +251,31 @@ def diff_rows(obs, exp_rows, soft_keys):
     return missing, unexpected, False
 
 
+def red_diff(missing, unexpected):
+    """-> [(title, ns, written target, stored target)] when the two row lists differ in
+    nothing but redirect targets, else None"""
+    if not missing or len(missing) != len(unexpected):
+        return None
+    un = {(t, n, b, m): rd for (t, n, rd, b, m) in unexpected}
+    if len(un) != len(unexpected):
+        return None
+    out = []
+    for (t, n, rd, b, m) in missing:
+        if (t, n, b, m) not in un:
+            return None
+        out.append((t, n, rd, un[(t, n, b, m)]))
+    return out
+
+
+def red_why(rd):
+    return "redirect target altered: " + "; ".join(
+        f"page {t!r} (ns {n}): the dump says {w!r}, the store says {g!r}" for (t, n, w, g) in rd[:3])
+
+
 def describe(missing, unexpected):
+    rd = red_diff(missing, unexpected)
+    if rd:
+        return red_why(rd)
     mk = {(t, n) for (t, n, *_r) in missing}
     uk = {(t, n) for (t, n, *_r) in unexpected}
     if mk & uk:
@@ -287,6 +315,15 @@ def run_chunk(chunk):
             if amb and all((r[0], r[1]) in amb for r in missing + unexpected):
                 out.append((k, "drift", "ambiguous exclusion/model", obs, missing, unexpected))
                 continue
+            # (rows of ambiguous pages set aside) nothing but redirect targets differs:
+            rd = red_diff([r for r in missing if (r[0], r[1]) not in amb], [r for r in unexpected if (r[0], r[1]) not in amb])
+            if rd:
+                # targets not written the way an export writes them: TLC lists the other spellings
+                # of the same target; one of those stored instead is not against the statement
+                alts = {(conc(a["title"]), a["ns"]): {conc(x) for x in a["alts"]} for a in c.get("redalt", [])}
+                if all(g in alts.get((t, n), ()) for (t, n, _w, g) in rd):
+                    out.append((k, "drift", "redirect target respelled", obs, missing, unexpected))
+                    continue
             if not c["same"]:
                 m2, u2, _ = diff_rows(obs, c["asis"], None)
                 if not m2 and not u2:
@@ -309,7 +346,8 @@ def case_record(pool, c, obs, missing, unexpected, gen):
         "dump": [{"title": conc(p["title"]), "ns": p["ns"], "model": p["model"], "redirect": conc_red(p["red"]),
                   "text": BODY[p["body"]]} for p in pages],
         "selected_namespaces": c["sel"],
-        "abstract": {"f": c["f"], "sel": c["sel"], "pages": pages, "exp": c["exp"], "asis": c["asis"], "same": c["same"], "amb": c["amb"]},
+        "abstract": {"f": c["f"], "sel": c["sel"], "pages": pages, "exp": c["exp"], "asis": c["asis"], "same": c["same"], "amb": c["amb"],
+                     "redalt": c.get("redalt", [])},
         "missing": missing, "unexpected": unexpected,
     }
 
@@ -334,7 +372,7 @@ def report(o: Outcome, pool, cases, results, counts, gen="exhaustive"):
             o.classify(rec, f"ingestion {why}: missing {missing}, unexpected {unexpected} (a leading 'Main:' of a title is dropped by add_page)",
                        [DEV_MAIN], cls="asis")
         else:
-            o.violation(rec, f"ingestion: page {why}: missing {missing}, unexpected {unexpected}", cls=why.split(" ")[0])
+            o.violation(rec, f"ingestion: {'' if why.startswith('redirect') else 'page '}{why}: missing {missing}, unexpected {unexpected}", cls=why.split(" ")[0])
 
 
 GEN_CFG = """SPECIFICATION GSpec
@@ -415,6 +453,22 @@ def tok(title: str, ns: int, canon: dict) -> list:
     return atoms
 
 
+def tok_red(red: str, site) -> list:
+    """Concrete redirect target -> atoms: the marker "=>", a leading ":" atom, a namespace-prefix
+    atom (any spelling of the language data, longest match), then the rest cut at every
+    "_", " " and "#" (each an atom of its own).  Equal strings <=> equal atom sequences."""
+    atoms = ["=>"]
+    if red.startswith(":"):
+        atoms.append(":")
+        red = red[1:]
+    pre = max((q for q in site["pfxns"] if red.startswith(q)), key=len, default=None)
+    if pre:
+        atoms.append(pre)
+        red = red[len(pre):]
+    atoms.extend(x for x in re.split(r"([_ #])", red) if x)
+    return atoms
+
+
 def site_of(lang: str):
     """Tables of one language folder."""
     common.use_repo()
@@ -433,6 +487,7 @@ def site_of(lang: str):
         for n in [v["name"]] + v["aliases"] + [key]:
             if v["id"] != 0:
                 pfxns[n + ":"] = v["id"]
+                pfxns.setdefault(n.lower() + ":", v["id"])
     tpl = nsd["Template"]
     defaults = [{"title": [tpl["name"] + ":", t], "body": b} for t, b in (("!", "d1"), ("=", "d2"), ("((", "d3"), ("))", "d4"))]
     return {"lang": lang, "canon": canon, "pfxns": pfxns, "upper": {"z": "Z", "Z": "Z"}, "tplns": tpl["id"],
@@ -495,6 +550,41 @@ def rand_title(rng, site, ns, earlier):
     return base
 
 
+RED_BASES = ["Zed", "zed", "dog", "Ünï-çø", "x/y", "A:B", "Foo bar", "Main:Zed", "日本語"]
+
+
+def rand_red(rng, site, ns, title, earlier):
+    """A redirect target: a page of any namespace seen from a page of any namespace, spelled the way
+    an export spells it (bare main-namespace title, canonical prefix) or a way an export never uses
+    (alias / lower-case prefix, leading colon, fragment, underscores)."""
+    r = rng.random()
+    if r < 0.3:
+        return rand_title(rng, site, ns, earlier)  # same namespace, canonical prefix
+    if r < 0.45 and earlier:
+        return rng.choice(earlier)[0]  # a page of the dump, any namespace (chains, itself)
+    canon = site["canon"]
+    own = canon.get(str(ns), "")
+    bare = title[len(own):] if own and title.startswith(own) else title
+    base = bare if rng.random() < 0.3 else rng.choice(RED_BASES)
+    ids = sorted(int(k) for k in site["names"])
+    tns = rng.choice([0, 0, 0, ns, site["tplns"], rng.choice(ids)])
+    spell = sorted(q for q, i in site["pfxns"].items() if i == tns)
+    if tns == 0:
+        t = base
+    elif rng.random() < 0.7 or not spell:
+        t = canon[str(tns)] + base
+    else:
+        t = rng.choice(spell) + base
+    x = rng.random()
+    if x < 0.08:
+        t = ":" + t
+    elif x < 0.16:
+        t = t + "#" + rng.choice(["Sec", "a b", "x_y", ""])
+    elif x < 0.24:
+        t = t.replace(" ", "_") if " " in t else t + "_x"
+    return t
+
+
 def rand_dump(rng, site, bodies):
     """-> (concrete pages, abstract pages, selection).  `bodies`: text -> identifier."""
     ids = sorted(int(k) for k in site["names"])
@@ -515,8 +605,8 @@ def rand_dump(rng, site, bodies):
         earlier.append((t, ns))
         model = rng.choice(["wikitext"] * 5 + ["Scribunto", "json", "css", "javascript", "sanitized-css", ""])
         red = None
-        if rng.random() < 0.15:
-            red = rand_title(rng, site, ns, earlier)
+        if rng.random() < 0.2:
+            red = rand_red(rng, site, ns, t, earlier)
         if ns == tpl:
             text, inc = rand_template_text(rng)
         else:
@@ -524,7 +614,7 @@ def rand_dump(rng, site, bodies):
             inc = text
         conc_pages.append((t, ns, model, red, text))
         abs_pages.append({"title": tok(t, ns, site["canon"]), "ns": ns, "model": model,
-                          "red": ["-"] if red is None else ["=>", red], "body": bid(text), "inc": bid(inc)})
+                          "red": ["-"] if red is None else tok_red(red, site), "body": bid(text), "inc": bid(inc)})
     r = rng.random()
     if r < 0.4:
         sel = sorted({0, tpl} | ({mod} if mod is not None else set()))
@@ -537,7 +627,9 @@ def rand_dump(rng, site, bodies):
 
 def sweep_dumps(site):
     """One page per namespace of the language data (all selected), then the helper templates
-    already present (as page / as redirect) with only some namespaces selected."""
+    already present (as page / as redirect) with only some namespaces selected, then redirect
+    pages of every namespace: to the main namespace (no prefix), to their own namespace, and one
+    of: template namespace, alias / lower-case spelling, leading colon, fragment, underscore."""
     canon, tpl = site["canon"], site["tplns"]
     tp = canon[str(tpl)]
     pages = []
@@ -549,6 +641,15 @@ def sweep_dumps(site):
     yield [(tp + "!", tpl, "wikitext", None, "own bang"), (tp + "((", tpl, "wikitext", tp + "Zed", ""),
            (tp + "Zed", tpl, "wikitext", None, BODY["t1"]), (tp + "Zed/documentation", tpl, "wikitext", None, "d"),
            ("Zed", 0, "wikitext", None, BODY["t1"])], sorted({0, tpl})
+    pages = [("zed", 0, "wikitext", None, "the target")]
+    for k, (i, name) in enumerate(sorted(site["names"].items())):
+        i = int(i)
+        pre = "" if i == 0 else canon[str(i)]
+        spell = sorted(q for q, j in site["pfxns"].items() if j == i and q != pre)
+        third = [tp + "Zed", (spell[k % len(spell)] if spell else ":") + "zed", ":" + pre + "zed", "zed#S 1", pre + "Foo_bar", "Zed"][k % 6]
+        for j, target in enumerate(["zed", pre + "R0", third]):
+            pages.append((f"{pre}R{j}", i, "wikitext", target, f"#REDIRECT [[{target}]]"))
+    yield pages, sorted(int(i) for i in site["names"])
 
 
 def abstract_of(site, conc_pages, bodies, inc_of=None):
@@ -565,7 +666,7 @@ def abstract_of(site, conc_pages, bodies, inc_of=None):
         if ns == site["tplns"]:
             inc = {BODY["t1"]: BODY["t1i"]}.get(text, text)
         res.append({"title": tok(t, ns, site["canon"]), "ns": ns, "model": model,
-                    "red": ["-"] if red is None else ["=>", red], "body": bid(text), "inc": bid(inc)})
+                    "red": ["-"] if red is None else tok_red(red, site), "body": bid(text), "inc": bid(inc)})
     return res
 
 
@@ -579,7 +680,7 @@ def observe(site, rows, bodies, unknown):
         else:
             b = "?" + hashlib.sha1(body.encode("utf-8", "surrogatepass")).hexdigest()[:10]
             unknown[b] = body
-        out.append({"title": tok(t, ns, site["canon"]), "ns": ns, "redirect": ["-"] if red is None else ["=>", red],
+        out.append({"title": tok(t, ns, site["canon"]), "ns": ns, "redirect": ["-"] if red is None else tok_red(red, site),
                     "body": b, "model": model if model is not None else "NULL"})
     return out
 
@@ -688,16 +789,28 @@ def run_v(o: Outcome, plan, counts):
             if b["why"] == "ambiguous":
                 o.note_drift({"why": "ambiguous exclusion/model", **case})
                 continue
+            if b["why"] in ("respelled", "asis+respelled", "asis+ambiguous"):
+                o.note_drift({"why": "ambiguous exclusion/model" if b["why"].endswith("ambiguous") else "redirect target respelled", **case})
+                if b["why"] == "respelled":
+                    continue
+            if b["why"] == "redirect":
+                counts["V:redirect"] = counts.get("V:redirect", 0) + 1
+                if counts["V:redirect"] <= MAXV:
+                    got = {(conc(r["title"]), r["ns"]): conc(r["redirect"][1:]) for r in b["runexpected"]}
+                    rd = [(conc(r["title"]), r["ns"], conc(r["redirect"][1:]), got.get((conc(r["title"]), r["ns"]))) for r in b["rmissing"]
+                          if (conc(r["title"]), r["ns"]) in got]
+                    o.violation(case, f"ingestion ({site['lang']}): " + red_why(rd), cls="V:redirect")
+                continue
             soft = {tuple(d["title"]) for d in site["defaults"][2:]}
             if all(tuple(r["title"]) in soft for r in b["missing"] + b["unexpected"]):
                 o.note_drift({"why": "soft body", **case})
                 continue
-            key = "V:" + b["why"]
+            key = "V:" + b["why"].split("+")[0]
             counts[key] = counts.get(key, 0) + 1
             if counts[key] > MAXV:
                 continue
             why = f"ingestion ({site['lang']}): missing {[(conc(r['title']), r['ns']) for r in b['missing']]}, unexpected {[(conc(r['title']), r['ns']) for r in b['unexpected']]}"
-            if b["why"] == "asis":
+            if b["why"].startswith("asis"):
                 o.classify(case, why + " (a leading 'Main:' of a title is dropped by add_page)", [DEV_MAIN], cls="V:asis")
             else:
                 o.violation(case, why, cls="V:other")
@@ -723,13 +836,18 @@ def run(tier: str) -> int:
     thorough = tier == "thorough"
     o.rule = (
         "G: one case = (dump as a sequence of <= MaxLen abstract pages [ns, title kind, model, redirect, body], namespace selection), "
-        "all sequences over the pool enumerated by TLC, distinct by (sequence, selection), non-trivial = non-empty dump; each is written "
+        "all sequences over the pool enumerated by TLC, distinct by (sequence, selection), non-trivial = non-empty dump; second pool GenR: "
+        "redirect pages (source namespace x target form [canonical / space / alias / lower-case prefix / leading colon / fragment / underscore] x "
+        "target namespace [main / own / other] x target title) plus the pages pointed to, sequences of <= 2; each is written "
         "as a real .xml.bz2 and ingested. V: random dumps of 1-20 pages over all namespaces of a language + a per-language namespace sweep, distinct by content."
     )
     o.assumptions = [
         "dump titles carry the canonical local namespace prefix of their <ns> (as MediaWiki exports them) and no underscores",
         "one <revision> per <page> (pages-articles dumps); text free of characters XML 1.0 cannot carry",
         "pages with the same (title, ns) occurring twice: the later one is the stored one",
+        "redirect targets written the way an export writes them (no prefix for the main namespace, canonical prefix, spaces, no leading colon, "
+        "no fragment) must be stored byte for byte; a target written another way may be stored in any spelling of the same target (drift), "
+        "a stored value that names another page is a violation",
         "the texts of the brace helper templates and the point at which template comments are dropped are not pinned by the statement (drift only)",
         "sub-subpages of documentation/testcases pages, names merely starting with 'testcases', and redirects with another content model: "
         "the statement can be read both ways, the model follows the code, differences are drift",
@@ -739,12 +857,17 @@ def run(tier: str) -> int:
         "MC_live": lambda: tlc("MC_Ingest", "MC_Ingest_live.cfg", workers=2, timeout=3000),
         "MC_asis": lambda: tlc("MC_Ingest", "MC_Ingest_asis.cfg", workers=2, timeout=3000),
         "Demo_Ingest_main.cfg": lambda: tlc("MC_Ingest", "Demo_Ingest_main.cfg", workers=1, check=False),
+        # redirect targets x source namespaces
+        "MC_red": lambda: tlc("MC_Ingest", "MC_Ingest_redT.cfg" if thorough else "MC_Ingest_red.cfg", workers=2, timeout=3000),
+        "Demo_Ingest_red.cfg": lambda: tlc("MC_Ingest", "Demo_Ingest_red.cfg", workers=1, check=False),
     }
     if thorough:
         jobs.update(gen_jobs("Gen3", 3, "PoolQ", "SelsT", 2))
         jobs.update(gen_jobs("Gen2", 2, "PoolT", "SelsT", 6))
+        jobs.update(gen_jobs("GenR", 2, "PoolRedT", "SelsRedT", 4))
     else:
         jobs.update(gen_jobs("Gen3", 3, "PoolQ", "SelsQ", 3))
+        jobs.update(gen_jobs("GenR", 2, "PoolRed", "SelsRed", 1))
     res = par(jobs)
     for name, r in res.items():
         o.add_tlc(name, r)
@@ -753,6 +876,10 @@ def run(tier: str) -> int:
     o.extra["demo_main_prefix_merge_found_by_tlc"] = bool(r.invariant_violated)
     if not r.invariant_violated:
         raise common.TLCError("Demo_Ingest_main.cfg no longer shows the Main: merge (vacuity guard)")
+    r = res["Demo_Ingest_red.cfg"]
+    o.extra["demo_redirect_target_rewritten_found_by_tlc"] = bool(r.invariant_violated)
+    if not r.invariant_violated:
+        raise common.TLCError("Demo_Ingest_red.cfg: RedirectsVerbatim does not reject a target normalised like a title (vacuity guard)")
     # ---- G
     counts: dict = {}
     ncases = 0
@@ -788,7 +915,15 @@ def run(tier: str) -> int:
     o.extra["violation_counts"] = counts
     # the dump-processing pipeline one level up (spec/Pipeline.tla): overrides, backup placement, analysis
     import pipeline
-    common.with_engine(o, "pipeline", lambda: pipeline.extend(o, tier, "C12"))
+    try:
+        common.with_engine(o, "pipeline", lambda: pipeline.extend(o, tier, "C12"))
+    except Exception as e:  # noqa: BLE001
+        # the engine builds its base stores with add_page and refuses to run when they do not come out
+        # as written; violations already established by the ingestion part above are reported all the same
+        if not o.violations:
+            raise
+        o.extra["pipeline_engine_failed"] = repr(e)[:600]
+        print(f"C12: pipeline engine could not run on this tree ({repr(e)[:200]}); reporting the ingestion verdicts")
     return o.finish()
 
 
@@ -850,6 +985,12 @@ def selftest() -> int:
         _, bad = validate_site(site, events)
         rejected.append((name, [b["i"] for b in bad]))
     events[k]["store"] = saved
+    k2, j2 = next((a, b) for a, e in enumerate(events) for b, r in enumerate(e["store"]) if r["redirect"] != ["-"])
+    saved2 = json.loads(json.dumps(events[k2]["store"]))
+    events[k2]["store"][j2]["redirect"] = ["=>", site["canon"][str(site["tplns"])], "Elsewhere"]
+    _, bad = validate_site(site, events)
+    rejected.append(("other redirect target", [(b["i"], b["why"]) for b in bad if b["why"] == "redirect"]))
+    events[k2]["store"] = saved2
     print(f"V: clean record: {len(base)} rejected; corrupted records rejected: {rejected}")
     r = tlc("Gen_Ingest", "g.cfg", workers=1, cfg_text=GEN_CFG.format(maxlen=1, pool="PoolQ", sels="SelsQ", parts=1, part=0))
     pool = r.tagged("POOL")[0]["pool"]
